@@ -546,6 +546,25 @@ func ruleCLI(w *World, r *Report) {
 	}
 	r.floor("CLI", "printUsageAndExit call sites in main", nUsage, 5)
 
+	// (7) the flag package must hand parse errors back (ContinueOnError): with ExitOnError it exits 2 by itself,
+	// which is this program's status for "repair not possible"
+	nfs := 0
+	for _, f := range w.funcsInPkgs("cmd/par") {
+		for _, ci := range callInstrs(f) {
+			if calleeName(ci.Common()) != "flag.NewFlagSet" || len(ci.Common().Args) < 2 {
+				continue
+			}
+			nfs++
+			key := fmt.Sprintf("7:flagset:%s#%d", shortName(f), nfs-1)
+			if c, ok := constInt(ci.Common().Args[1]); ok && c == 0 {
+				r.ok("CLI", key, w.ipos(ci), "flag.ContinueOnError: parse errors reach the usage path (exit 3)")
+			} else {
+				r.bad("CLI", key, w.ipos(ci), "the flag set is not created with flag.ContinueOnError: on a bad option the flag package exits the process itself (status 2 or 0), bypassing the usage error status 3")
+			}
+		}
+	}
+	r.floor("CLI", "flag.NewFlagSet call sites", nfs, 1)
+
 	// (6) main cannot fall off its end (exit 0) - all paths end in exits
 	outs := eng.outcomes(mainFn, mainFn.Blocks[0], 0, cliEnv{}, 6, nil)
 	fall := 0
